@@ -156,6 +156,9 @@ enum Flow {
     Return(Option<String>),
     ExitProc,
     Resume(ResumeKind),
+    /// RESUME label for an error raised inside a subprogram: all active calls are
+    /// abandoned and the main module continues at the label
+    UnwindGoto(String),
     End,
     /// unhandled error: code (None = any defined code), failing statement, call sites innermost first
     Abort(Option<i32>, StmtId, Vec<u32>),
@@ -338,7 +341,9 @@ impl<'a> Model<'a> {
         match flow {
             Flow::Next | Flow::End => self.expect_outcome_ok(),
             Flow::Abort(code, stmt, sites) => self.expect_outcome_error(code, stmt, &sites),
-            Flow::Goto(l) => Err(Stop::Early(format!("GOTO {} left the main module", l))),
+            Flow::Goto(l) | Flow::UnwindGoto(l) => {
+                Err(Stop::Early(format!("GOTO {} left the main module", l)))
+            }
             other => Err(Stop::Early(format!("main module ended in {:?}", other))),
         }
     }
@@ -550,6 +555,17 @@ impl<'a> Model<'a> {
             };
             match flow {
                 Flow::Next => i += 1,
+                Flow::UnwindGoto(l) => {
+                    // propagate until all subprogram frames are gone, then it is a GOTO
+                    if self.frames.len() > 1 {
+                        return Ok(Flow::UnwindGoto(l));
+                    }
+                    if let Some(j) = Self::find_label(list, &l) {
+                        i = j;
+                        continue;
+                    }
+                    return Ok(Flow::UnwindGoto(l));
+                }
                 Flow::Goto(l) => {
                     // the label may be in this very list (also inside a block: a jump
                     // within a loop body); otherwise it is further out
@@ -727,13 +743,13 @@ impl<'a> Model<'a> {
                             ResumeKind::Bare => Ok(Recovery::Retry),
                             ResumeKind::Next => Ok(Recovery::Skip),
                             ResumeKind::Label(l) => {
-                                if self.frames.len() > 1 {
-                                    return Err(Stop::Early(
-                                        "RESUME label for an error raised in a subprogram".into(),
-                                    ));
-                                }
                                 self.probe("resume_label");
-                                Ok(Recovery::Flow(Flow::Goto(l)))
+                                if self.frames.len() > 1 {
+                                    self.probe("resume_label_out_of_subprogram");
+                                    Ok(Recovery::Flow(Flow::UnwindGoto(l)))
+                                } else {
+                                    Ok(Recovery::Flow(Flow::Goto(l)))
+                                }
                             }
                         }
                     }
@@ -1231,6 +1247,11 @@ impl<'a> Model<'a> {
                     Some(h) => {
                         let list: Vec<(usize, String)> =
                             fields.iter().map(|(w, v)| (*w as usize, v.clone())).collect();
+                        let total: usize = list.iter().map(|f| f.0).sum();
+                        if h.mode != Mode::Random || total > h.rec_len {
+                            // wrong mode, or the fields do not fit the record: a file error
+                            return Ok(Err(Failure { code: None }));
+                        }
                         h.current_fields = Some(h.field_lists.len());
                         h.field_lists.push(list);
                         Ok(Ok(Flow::Next))
@@ -1359,6 +1380,7 @@ impl<'a> Model<'a> {
                 Ok(CallEnd::Returned(result))
             }
             Flow::End => Ok(CallEnd::Flow(Flow::End)),
+            Flow::UnwindGoto(l) => Ok(CallEnd::Flow(Flow::UnwindGoto(l))),
             Flow::Abort(c, s, sites) => Ok(CallEnd::Flow(Flow::Abort(c, s, sites))),
             Flow::Goto(l) => Err(Stop::Early(format!("GOTO {} left a procedure", l))),
             other => Err(Stop::Early(format!("procedure ended in {:?}", other))),
